@@ -424,7 +424,7 @@ CONNECT) then a generated API call mix. Oracle: no panic, termination decided by
     fn extra_evidence(tier: Tier) -> serde_json::Value {
         let l = tier.pick(5u32, 7);
         let strings: u64 = (0..=l).map(|k| 9u64.pow(k)).sum();
-        serde_json::json!({"exhaustive_subspace": format!("all {} strings over a 9-symbol alphabet up to length {} x {} contexts, plus 13 endless-stream constructs x API plans", strings, l, CONTEXTS)})
+        serde_json::json!({"exhaustive_subspace": format!("all {} strings over a 9-symbol alphabet up to length {} x {} contexts, plus 15 endless-stream constructs x API plans", strings, l, CONTEXTS)})
     }
 
     fn enumerated(tier: Tier, worker: usize, nworkers: usize) -> Option<Box<dyn Iterator<Item = Case>>> {
@@ -440,7 +440,7 @@ CONNECT) then a generated API call mix. Oracle: no panic, termination decided by
             Api::Json,
             Api::TextReader(7),
         ];
-        let endless = (0..13u8).flat_map(move |kind| apis.clone().into_iter().map(move |api| Case::Endless { kind, api }));
+        let endless = (0..15u8).flat_map(move |kind| apis.clone().into_iter().map(move |api| Case::Endless { kind, api }));
         Some(Box::new(
             alpha
                 .chain(endless)
@@ -589,6 +589,22 @@ CONNECT) then a generated API call mix. Oracle: no panic, termination decided by
                         "endless:connect-reply-headers",
                     ),
                     11 => ("http://origin.test/", None, vec![vec![Ev::Data(head("")), Ev::Endless(b"X-A: b\n".to_vec())]], 20 + k16 + k8, None, "endless:lf-folded-header"),
+                    13 => (
+                        "https://origin.test/",
+                        Some("http://proxy.test:3128"),
+                        vec![vec![Ev::Data(b"HTTP/1.1 407 Denied\r\nContent-Length: 1099511627776\r\n\r\n".to_vec()), Ev::Endless(b"z".to_vec())]],
+                        60 + 10 * 1024 + k8,
+                        None,
+                        "endless:connect-refusal-declared-length",
+                    ),
+                    14 => (
+                        "https://origin.test/",
+                        Some("http://proxy.test:3128"),
+                        vec![vec![Ev::Data(b"HTTP/1.1 502 Bad\r\nTransfer-Encoding: chunked\r\n\r\nfffffff\r\n".to_vec()), Ev::Endless(b"z".to_vec())]],
+                        60 + 10 * 1024 + k8,
+                        None,
+                        "endless:connect-refusal-chunked",
+                    ),
                     _ => (
                         "http://origin.test/",
                         None,
@@ -606,7 +622,7 @@ CONNECT) then a generated API call mix. Oracle: no panic, termination decided by
                 if *kind == 6 && run.dials != 6 {
                     return Outcome::fail("C05:redirect-chain-unbounded", format!("an endless redirect chain caused {} exchanges (max_redirections is 5)", run.dials));
                 }
-                if *kind <= 5 || *kind == 10 || *kind == 11 {
+                if *kind <= 5 || *kind == 10 || *kind == 11 || *kind == 13 || *kind == 14 {
                     if !run.err {
                         return Outcome::fail(format!("C05:{label}:accepted"), "an endless construct was accepted without error".to_string());
                     }
